@@ -264,7 +264,8 @@ pub fn run_actserve(args: &[String]) {
         let _ = std::fs::write(d, v.to_string());
     }
     let log: SharedLog = Default::default();
-    let _ = varlink::listen(svc::standard_service(log), &addr, &varlink::ListenConfig { idle_timeout: 2, ..Default::default() });
+    let cfg = if args.iter().any(|a| a == "--no-timeout") { varlink::ListenConfig::default() } else { varlink::ListenConfig { idle_timeout: 2, ..Default::default() } };
+    let _ = varlink::listen(svc::standard_service(log), &addr, &cfg);
 }
 
 /// child: the standard service over stdin / stdout (the far end of a bridge command)
@@ -362,7 +363,7 @@ pub fn run_transport(args: &[String]) {
     let own_server = direct || lib_client;
     let port = free_port(base == "tcp6");
     let address = match base.as_str() {
-        "unix" => format!("unix:{}/s", dir.display()),
+        "unix" | "activated-nonblocking" => format!("unix:{}/s", dir.display()),
         "unix-mode" => format!("unix:{}/s;mode=0666", dir.display()),
         "abstract" => format!("unix:@verif-transport-{}", std::process::id()),
         "tcp6" => format!("tcp:[::1]:{}", port),
@@ -380,6 +381,29 @@ pub fn run_transport(args: &[String]) {
             emit(&json!({"summary": true, "cases": 0, "executions": 0, "failures": 0, "skipped": "localhost does not resolve"}));
             return;
         }
+    }
+    // the harness as activator: a NON-BLOCKING listening socket handed over as descriptor 3 (systemd creates them that way), the
+    // service runs listen() with the default configuration (no idle time-out, no stop flag)
+    let mut activated_child: Option<std::process::Child> = None;
+    if kind == "activated-nonblocking" {
+        use std::os::unix::process::CommandExt;
+        let l = UnixListener::bind(dir.join("s")).expect("bind");
+        l.set_nonblocking(true).expect("nonblocking");
+        let fd = l.as_raw_fd();
+        let mut cmd = Command::new("sh");
+        cmd.arg("-c").arg(format!("LISTEN_PID=$$; export LISTEN_PID; exec {} actserve --varlink={} --no-timeout", self_exe(), address))
+            .env("LISTEN_FDS", "1").env("LISTEN_FDNAMES", "varlink").stdin(Stdio::null()).stdout(Stdio::null()).stderr(Stdio::null());
+        unsafe {
+            cmd.pre_exec(move || {
+                let hi = libc::fcntl(fd, libc::F_DUPFD, 100);
+                libc::dup2(hi, 3);
+                libc::close(hi);
+                Ok(())
+            });
+        }
+        activated_child = cmd.spawn().ok();
+        drop(l);
+        std::thread::sleep(Duration::from_millis(150));
     }
     let mut server = if own_server { Some(Server::start(&address, 2, 8)) } else { None };
     // watchdog for calls that never return
@@ -427,6 +451,23 @@ pub fn run_transport(args: &[String]) {
                 let up_tok = if end == "upgraded" { Some(creqs[at - 1].tok.clone()) } else { None };
                 run_socket(&address, &server.as_ref().unwrap().log, &[stream.clone()], if end == "upgraded" { None } else { Some(&sentinel) }, &stok, up_tok.as_deref())
             } else {
+                if kind == "activated-nonblocking" {
+                    // every case is one connection; in between nothing is pending on the inherited socket
+                    std::thread::sleep(Duration::from_millis(if i % 8 == 0 { 120 } else { 2 }));
+                    let dummy: SharedLog = Default::default();
+                    let o = run_socket(&address, &dummy, &[stream.clone()], Some(&sentinel), &stok, None);
+                    if o.end == "connect-failed" {
+                        return Err(format!("the activated service (non-blocking inherited socket, default configuration) no longer accepts connections: {}", o.note));
+                    }
+                    if end == "open" {
+                        creqs.push(CReq { kind: "GenOk".into(), tok: stok.clone(), bytes: sentinel[..sentinel.len() - 1].to_vec(), method: "org.example.gen.Ping".into(), more: false, oneway: false, script: vec![], raw_full: None });
+                        out_items.as_array_mut().unwrap().push(json!({"req": creqs.len(), "cont": false, "err": "", "arg": "pong"}));
+                        results.as_array_mut().unwrap().push(json!([]));
+                    }
+                    let exp = Expect { creqs: &creqs, out: &out_items, end, at, results: &results };
+                    check_replies(&exp, &o.out, false)?;
+                    return Ok(());
+                }
                 let conn = if lib_client {
                     Connection::with_address(&address).map_err(|e| format!("Connection::with_address({}) failed: {:?}", address, e.kind()))?
                 } else if kind == "activate" {
@@ -493,6 +534,10 @@ pub fn run_transport(args: &[String]) {
         }
     }
     progress.store(usize::MAX, std::sync::atomic::Ordering::SeqCst);
+    if let Some(mut ch) = activated_child.take() {
+        let _ = ch.kill();
+        let _ = ch.wait();
+    }
     if let Some(s) = server.as_mut() { s.stop(); }
     let _ = std::fs::remove_dir_all(&dir);
     let fs = fails.lock().unwrap();
